@@ -13,6 +13,7 @@
                                   the root's requirement list unchanged; see the report);
       [u_fuel], [e_fuel]          explicit sufficient fuels (number of nodes + constant).  *)
 From Dawn Require Import Mvs.Spec Mvs.Proofs_Names Mvs.Proofs_C11 Mvs.Proofs_Idem2 Mvs.Proofs_Down Mvs.Proofs_Query.
+From Dawn Require Mvs.Proofs_Down2 Mvs.Proofs_Idem3.
 
 (** Tidy returns requirements whose build list equals the original one (and both exist) *)
 Theorem tidy_preserves_build_list :
@@ -133,6 +134,32 @@ Theorem tidy_idempotent :
 Proof. exact Proofs_Idem2.tidy_idempotent. Qed.
 Print Assumptions tidy_idempotent.
 
+(** UpgradeAll: the second run explores a subgraph of the first run's graph that still contains the plain graph of
+    the new requirements, so it selects the same versions, Algorithm R returns the same requirement list, and the
+    names are re-attached unchanged *)
+Theorem upgrade_all_idempotent :
+  forall pick U root c',
+    wf_universe U -> wf_reqs (map snd root) -> names_unique root ->
+    apply_op pick U root OpUpgradeAll = Ok c' -> apply_op pick U c' OpUpgradeAll = Ok c'.
+Proof. exact Proofs_Idem3.upgrade_all_idempotent. Qed.
+Print Assumptions upgrade_all_idempotent.
+
+(** an instance where UpgradeAll changes the configuration (c v1.0.0 and d v1.1.0 become c v1.2.0, which implies
+    d v1.2.0 and e v1.0.0 - two projects that require each other) and the repeat changes nothing *)
+Example upgrade_all_idempotent_example :
+  let c := [114; 47; 99] in let d := [114; 47; 100] in let e := [114; 47; 101] in
+  let v x y z := VSem (mkSV x y z []) in
+  let U := mkU [114]
+               [((c, v 1 0 0), 1); ((d, v 1 0 0), 1); ((e, v 1 0 0), 1); ((c, v 1 1 0), 2); ((d, v 1 1 0), 2);
+                ((c, v 1 2 0), 3); ((d, v 1 2 0), 3)]
+               [((c, 1), mkSum [] [(d, v 1 0 0)]); ((c, 2), mkSum [] [(d, v 1 1 0)]); ((c, 3), mkSum [] [(d, v 1 2 0)]);
+                ((d, 1), mkSum [] []); ((d, 2), mkSum [] []); ((d, 3), mkSum [] [(e, v 1 0 0)]);
+                ((e, 1), mkSum [] [(d, v 1 2 0)])] [] [] [] in
+  apply_op (fun _ => O) U [([99], (c, v 1 0 0)); ([100], (d, v 1 1 0))] OpUpgradeAll = Ok [([99], (c, v 1 2 0))] /\
+  apply_op (fun _ => O) U [([99], (c, v 1 2 0))] OpUpgradeAll = Ok [([99], (c, v 1 2 0))] /\
+  dawn_build_list (fun _ => O) 20 U [([99], (c, v 1 2 0))] = Ok [([], VRoot); (c, v 1 2 0); (d, v 1 2 0); (e, v 1 0 0)].
+Proof. cbv zeta. repeat split; vm_compute; reflexivity. Qed.
+
 (** get: HONEST HYPOTHESIS (reported, not hidden): the configuration's build list has the project at the
     version the query resolves to - i.e. the first application selected the resolved version and the query
     resolves to the same version again.  Then the repeat is a no-op.  Without it the statement is false:
@@ -175,17 +202,13 @@ Proof.
 Qed.
 Print Assumptions get_idempotent_refuted.
 
-(** ** downgrade
+(** ** downgrade (Proofs_Down.v: the three BuildList phases; Proofs_Down2.v: the add / exclude / previous phase)
 
-    Full statements (NOT proved; kept here as the target):
-      downgrade_at_or_below : get_versions ... = Ok newv in the downgrade branch  ->  the build list of newv has the
-        project absent or at a version <= the resolved one;
-      downgrade_terminates  : mvs_downgrade ... (e_fuel U rr) (l_fuel U) version <> OutOfFuel.
-    Proved: the part of the argument that follows the add/exclude phase, and the fact whose failure was F13.
-    MISSING LEMMA (named [down_list_spec] in Proofs_Down.v): the list returned by the add/exclude/previous phase
-    [down_list] only reaches nodes of the finite node set, none of them above the request, and that phase does not
-    exhaust the fuels (|nodes|+1 for add/exclude, |tags|+3 for the previous-loop).  The correspondence check
-    exercises the whole of mvs.Downgrade against the model on every generated downgrade, with a watchdog. *)
+    [mvs_downgrade required previous pick fuel lfuel d] is the model of mvs.Downgrade(target, reqs, d): BuildList,
+    then for every project of the build list add (which excludes what would exceed [max], what cannot be loaded, and
+    - through rdeps - everything that requires something excluded) and the for-excluded loop over Reqs.Previous
+    ([down_list]), then two more BuildLists.  [e_fuel U rr] = number of nodes + 4 bounds the recursion depth of add
+    and of exclude, [l_fuel U] = number of tags + 3 bounds the for-excluded loop. *)
 
 (** Reqs.Previous returns the root itself, "none", or a strictly earlier tagged version of the same path *)
 Theorem previous_strictly_lower :
@@ -195,24 +218,103 @@ Theorem previous_strictly_lower :
 Proof. exact Proofs_Down.previous_strictly_lower. Qed.
 Print Assumptions previous_strictly_lower.
 
-Theorem downgrade_at_or_below_partial :
-  forall required previous pick fuel lfuel (d : node) N final,
-    fst d <> [] -> (length N < fuel)%nat ->
-    Proofs_Down.down_list_spec required previous pick fuel lfuel d N ->
-    mvs_downgrade required previous pick fuel lfuel d = Ok final ->
-    forall v, In (fst d, v) final -> vle v (snd d) = true.
-Proof. exact Proofs_Down.downgrade_at_or_below_partial. Qed.
-Print Assumptions downgrade_at_or_below_partial.
+(** The add / exclude / previous phase (the lemma that was missing, down_list_spec): the requirement list it computes
+    only reaches nodes of the finite node set "everything any project requires + every tag + the request", and
+    none of them is a version of the requested project above the requested version *)
+Theorem down_list_reach :
+  forall pick U rr d bl dgd,
+    wf_universe U -> wf_reqs rr -> wf_node d ->
+    build_list_gen (u_required U rr) None pick (e_fuel U rr) target = Ok bl ->
+    down_list (u_required U rr) (reqs_previous U) (down_max (tl bl) d) (l_fuel U) (e_fuel U rr) (e_fuel U rr) (tl bl)
+              (mkD [] [] []) [target] = Ok dgd ->
+    forall n, Proofs_C10.greach (override (u_required U rr) target dgd) None target n ->
+              In n (e_nodes U rr [d]) /\ (fst n = fst d -> vle (snd n) (snd d) = true).
+Proof. exact Proofs_Down2.down_list_reach. Qed.
+Print Assumptions down_list_reach.
 
-(** if Downgrade runs out of fuel, it is inside the add/exclude/previous phase: the three BuildList phases
-    never exhaust a fuel above the number of nodes *)
-Theorem downgrade_terminates_partial :
-  forall required previous pick fuel lfuel (d : node) N,
-    (length N < fuel)%nat ->
-    (forall n, Proofs_C10.greach required None target n -> In n N) ->
-    (forall dgd n, Proofs_C10.greach (override required target dgd) None target n -> In n N) ->
-    mvs_downgrade required previous pick fuel lfuel d = OutOfFuel ->
-    exists bl, build_list_gen required None pick fuel target = Ok bl /\
-               down_list required previous (down_max (tl bl) d) lfuel fuel fuel (tl bl) (mkD [] [] []) [target] = OutOfFuel.
-Proof. exact Proofs_Down.downgrade_terminates_partial. Qed.
-Print Assumptions downgrade_terminates_partial.
+(** ... and that phase exhausts neither the depth fuel of add / exclude nor the fuel of the for-excluded loop *)
+Theorem down_list_no_hang :
+  forall pick U rr d bl,
+    wf_universe U -> wf_reqs rr -> wf_node d ->
+    build_list_gen (u_required U rr) None pick (e_fuel U rr) target = Ok bl ->
+    down_list (u_required U rr) (reqs_previous U) (down_max (tl bl) d) (l_fuel U) (e_fuel U rr) (e_fuel U rr) (tl bl)
+              (mkD [] [] []) [target] <> OutOfFuel.
+Proof. exact Proofs_Down2.down_list_no_hang. Qed.
+Print Assumptions down_list_no_hang.
+
+(** mvs.Downgrade: in the build list it returns the requested project is absent or at a version at or below the
+    requested one *)
+Theorem mvs_downgrade_at_or_below :
+  forall U rr d pick,
+    wf_universe U -> wf_reqs rr -> wf_node d ->
+    forall final,
+    mvs_downgrade (u_required U rr) (reqs_previous U) pick (e_fuel U rr) (l_fuel U) d = Ok final ->
+    forall v, In (fst d, v) final -> vle v (snd d) = true.
+Proof. exact Proofs_Down2.downgrade_at_or_below_mvs. Qed.
+Print Assumptions mvs_downgrade_at_or_below.
+
+(** Get of a version below the selected one (get's mvs.Downgrade branch, every query class: the theorem is about
+    whatever version the query resolved to): the new requirements resolve, and in their build list the project is
+    absent or at a version at or below the resolved one *)
+Theorem downgrade_at_or_below :
+  forall pick U root q k c',
+    wf_universe U -> wf_reqs (map snd root) -> names_unique root ->
+    apply_op pick U root (OpGet q k) = Ok c' ->
+    exists bl0 version,
+      build_list pick (e_fuel U (map snd root)) U (map snd root) = Ok bl0 /\
+      resolve_query U bl0 q k = Ok version /\
+      (wf_node version ->
+       forall cur, find_path (fst version) bl0 = Some cur -> sem_cmp cur (snd version) = Gt ->
+       forall pick1 fuel1, (u_fuel U (map snd c') <= fuel1)%nat ->
+         exists bl1, dawn_build_list pick1 fuel1 U c' = Ok bl1 /\
+                     forall v, In (fst version, v) bl1 -> vle v (snd version) = true).
+Proof. exact Proofs_Down2.get_downgrade_at_or_below. Qed.
+Print Assumptions downgrade_at_or_below.
+
+(** mvs.Downgrade never hangs and never panics, and neither does get's downgrade branch as a whole (Downgrade
+    followed by ReqList): with the explicit fuels the model returns a build list or an error *)
+Theorem downgrade_terminates :
+  forall pick U rr version,
+    wf_universe U -> wf_reqs rr -> wf_node version ->
+    mvs_downgrade (u_required U rr) (reqs_previous U) pick (e_fuel U rr) (l_fuel U) version <> OutOfFuel /\
+    mvs_downgrade (u_required U rr) (reqs_previous U) pick (e_fuel U rr) (l_fuel U) version <> Panic /\
+    bind (mvs_downgrade (u_required U rr) (reqs_previous U) pick (e_fuel U rr) (l_fuel U) version)
+         (req_list (u_required U (set_first_path rr version)) target (e_fuel U rr)) <> OutOfFuel /\
+    bind (mvs_downgrade (u_required U rr) (reqs_previous U) pick (e_fuel U rr) (l_fuel U) version)
+         (req_list (u_required U (set_first_path rr version)) target (e_fuel U rr)) <> Panic.
+Proof. exact Proofs_Down2.downgrade_no_hang_no_panic. Qed.
+Print Assumptions downgrade_terminates.
+
+(** The hypotheses of the downgrade theorems hold together on an instance that goes through every part of the
+    phase: c vX requires d vX for X = 1.0.0, 1.1.0, 1.2.0, e v1.0.0 and d v1.2.0 require each other (a cycle), the
+    root holds c v1.2.0 and e v1.0.0.  "get d@v1.0.0" is a downgrade (d v1.2.0 is selected); add excludes d v1.2.0,
+    and through rdeps c v1.2.0 and e v1.0.0; the for-excluded loop walks c down to v1.0.0 and e to "none".  The
+    result requires c v1.0.0 only, and its build list has d at v1.0.0. *)
+Example downgrade_example :
+  let c := [114; 47; 99] in let d := [114; 47; 100] in let e := [114; 47; 101] in
+  let v x y z := VSem (mkSV x y z []) in
+  let U := mkU [114]
+               [((c, v 1 0 0), 1); ((d, v 1 0 0), 1); ((e, v 1 0 0), 1); ((c, v 1 1 0), 2); ((d, v 1 1 0), 2);
+                ((c, v 1 2 0), 3); ((d, v 1 2 0), 3)]
+               [((c, 1), mkSum [] [(d, v 1 0 0)]); ((c, 2), mkSum [] [(d, v 1 1 0)]); ((c, 3), mkSum [] [(d, v 1 2 0)]);
+                ((d, 1), mkSum [] []); ((d, 2), mkSum [] []); ((d, 3), mkSum [] [(e, v 1 0 0)]);
+                ((e, 1), mkSum [] [(d, v 1 2 0)])] [] [] [] in
+  let root := [([99], (c, v 1 2 0)); ([101], (e, v 1 0 0))] in
+  let bl0 := [([], VRoot); (c, v 1 2 0); (d, v 1 2 0); (e, v 1 0 0)] in
+  wf_universe U /\ wf_reqs (map snd root) /\ names_unique root /\ wf_node (d, v 1 0 0) /\
+  build_list (fun _ => O) (e_fuel U (map snd root)) U (map snd root) = Ok bl0 /\
+  resolve_query U bl0 d (QRange (RExact (v 1 0 0))) = Ok (d, v 1 0 0) /\
+  find_path d bl0 = Some (v 1 2 0) /\ sem_cmp (v 1 2 0) (v 1 0 0) = Gt /\
+  mvs_downgrade (u_required U (map snd root)) (reqs_previous U) (fun _ => O) (e_fuel U (map snd root)) (l_fuel U) (d, v 1 0 0)
+  = Ok [([], VRoot); (c, v 1 0 0); (d, v 1 0 0)] /\
+  apply_op (fun _ => O) U root (OpGet d (QRange (RExact (v 1 0 0)))) = Ok [([99], (c, v 1 0 0))] /\
+  dawn_build_list (fun _ => O) 20 U [([99], (c, v 1 0 0))] = Ok [([], VRoot); (c, v 1 0 0); (d, v 1 0 0)].
+Proof.
+  cbv zeta. split; [split|split; [|split; [|split]]].
+  - intros x H. simpl in H. repeat (destruct H as [H|H]; [subst x; intros n Hn; simpl in Hn; repeat (destruct Hn as [Hn|Hn]; [subst; (split; [simpl; discriminate | simpl; eexists; reflexivity])|]); try contradiction|]). contradiction.
+  - intros x H. simpl in H; repeat (destruct H as [H|H]; [subst; (split; [simpl; discriminate | simpl; eexists; reflexivity])|]); try contradiction.
+  - intros n Hn. simpl in Hn; repeat (destruct Hn as [Hn|Hn]; [subst; (split; [simpl; discriminate | simpl; eexists; reflexivity])|]); try contradiction.
+  - unfold names_unique. simpl. repeat constructor; simpl; intuition discriminate.
+  - split; [simpl; discriminate | simpl; eexists; reflexivity].
+  - repeat split; vm_compute; reflexivity.
+Qed.
